@@ -215,7 +215,7 @@ idl_a_demux_feed		(vbi_idl_demux *	dx,
 	flags = dx->flags | (ial & VBI_IDL_DEPENDENT);
 	dx->flags &= ~VBI_IDL_DATA_LOST;
 
-	return dx->callback (dx, buf, j, dx->flags, dx->user_data);
+	return dx->callback (dx, buf, j, flags, dx->user_data);
 }
 
 
